@@ -70,6 +70,14 @@ add("C19", "Hypothesis generated value sets vs NNLS/least-distance oracles, defi
     "eps drawn >= 1% away from critical distances; band 1e-3*scale for solver-decided coverage; hypervolume with K<=3 facets and 32..128 Sobol points "
     "(sampler rebound at module level).", "DESIGN.md section 3 C19")
 
+add("C15", "model-based testing: generated add/update/clear/predict histories per GP class vs closed-form numpy conditioning; factory helpers with real training",
+    "For each of the three GP classes a generated history (batches, repeated inputs, per-objective observations, clears, single-point predictions, "
+    "unequal input/objective dimensions, scalar and full-matrix noise) is replayed and every predict is compared with closed-form Gaussian "
+    "conditioning on the harness's own record of the data held at the last update, under the generated hyper-parameters; the two train-and-freeze "
+    "helpers are trained for real and must be up to date with the data they report; reported lengthscales/variances are compared with the kernel.",
+    "Closed form in float64 numpy (Cholesky); 1e-6 relative; hyper-parameters in a well-conditioned range; two known findings listed (F12, F14).",
+    "DESIGN.md section 3 C15")
+
 PENDING = {}
 
 
